@@ -13,7 +13,7 @@ Verdict(c) ==
     ELSE "ok"
 TInit == ci = 1 /\ TLCSet(1, << >>)
 TNext == /\ ci <= Len(Cases)
-         /\ TLCSet(1, Append(TLCGet(1), [ id |-> Cases[ci].id, v |-> Verdict(Cases[ci]) ]))
+         /\ LET c == Cases[ci] IN TLCSet(1, Append(TLCGet(1), [ id |-> c.id, v |-> Verdict(c) ]))
          /\ ci' = ci + 1
 TSpec == TInit /\ [][TNext]_ci
 Post == ndJsonSerialize(IOEnv.VERDICT_FILE, TLCGet(1))
